@@ -314,6 +314,9 @@ def main():
         if v.startswith("error"):
             errors.append(r)
             continue
+        if cfg.get("only_crashes") and not v.startswith("violation crash"):
+            # C20 judges memory errors / undefined behaviour only; the functional verdict of the case belongs to another property
+            continue
         e = match_known(known, prop, r["case"], v)
         if e:
             knowns.append((e, r))
@@ -328,6 +331,8 @@ def main():
         extra_searched = len(more)
         for r in rs2:
             v = r["verdict"]
+            if cfg.get("only_crashes") and not v.startswith("violation crash"):
+                continue
             if not v.startswith("ok") and not v.startswith("error") and not match_known(known, prop, r["case"], v):
                 violations.append(r)
         results += rs2
@@ -392,7 +397,7 @@ def main():
 
 
 def write_evidence(prop, tier, seed, cfg, aud, results, knowns, wall, nviol, extra):
-    oks = [r for r in results if r["verdict"].startswith("ok")]
+    oks = [r for r in results if r["verdict"].startswith("ok") or (cfg.get("only_crashes") and "crash" not in r["verdict"])]
     distinct = {}
     for r in oks:
         if props.nontrivial(prop, r):
